@@ -140,7 +140,7 @@ def run_contention(nprocs, rounds, hows):
 
 
 # ------------------------------------------------------------------ C13 ----
-SCENARIOS = ['blocking', 'timed', 'with', 'ctx', 'nested', 'contended', 'helper', 'failing',
+SCENARIOS = ['blocking', 'timed', 'with', 'ctx', 'nested', 'contended', 'helper', 'helper-lowfd', 'failing',
              'forked-blocking', 'forked-timed', 'forked-nested']
 # 'forked-X': a supervisor process creates the FileLock object, uses it once (one successful and one failed attempt), then
 # fork()s the victim, which runs scenario X on the inherited object; the supervisor stays alive during the probe
@@ -212,6 +212,16 @@ def _scenario(name, path, F, l=None):
                 pass
             l.acquire()
             l.release()
+    elif name == 'helper-lowfd':
+        # as 'helper', in a process whose descriptor 0 is free (a daemon): the lock file is opened as descriptor 0
+        import subprocess
+        os.close(0)
+        l = F.FileLock(path)
+        l.acquire()
+        subprocess.Popen(['sleep', '0.4'], close_fds=False, stdout=subprocess.DEVNULL, stderr=subprocess.DEVNULL)
+        l.release()
+        with l:
+            pass
     elif name == 'helper':
         # the holder launches a (short-lived) helper process while it holds the lock, through a spawn
         # path that inherits inheritable descriptors; the helper outlives the holder
